@@ -365,6 +365,13 @@ class SuffixMultiplier:
         return int(v) * self._default
 
 
+class _BadTimedeltaPart(ValueError, TypeError):
+    # A ValueError, so that loading a configuration reports it as a
+    # conversion error with the position of the value, and still the
+    # TypeError this function has always raised for an unknown suffix.
+    pass
+
+
 def timedelta(s):
     # Unlike the standard time-interval data type, which returns a float
     # number of seconds, this datatype takes a wider range of syntax and
@@ -397,9 +404,12 @@ def timedelta(s):
         elif suffix == 's':
             seconds = val
         else:
-            raise TypeError(f'bad part {part} in {s}')
-    return datetime.timedelta(weeks=weeks, days=days, hours=hours,
-                              minutes=minutes, seconds=seconds)
+            raise _BadTimedeltaPart(f'bad part {part} in {s}')
+    try:
+        return datetime.timedelta(weeks=weeks, days=days, hours=hours,
+                                  minutes=minutes, seconds=seconds)
+    except OverflowError as e:
+        raise ValueError(f'time interval {s} is out of range: {e}')
 
 
 stock_datatypes = {
